@@ -13,14 +13,20 @@
           meaning (select crate p e) input = meaning (select crate (default_point crate) e) input
 
     where [meaning] is the modelled Rust code the selection names.  Closed below for
-    threefish-cipher and skein-hash (loop = unrolled rounds: C09), groestl-aesni (the three
-    modules instantiate one source function), crypto-simd / ppv-null (nothing selected) and all
-    features that occur in no cfg.  For blake-hash, jh-x86_64 and c2-chacha the selection only
-    chooses the inputs (no_simd, std) of the ppv-lite86 dispatch macros; equality of the results
-    is C03_dispatch_irrelevant, which needs "the six Machine instantiations of the generic body
-    compute one function" for each body (C03/C12/C13, in progress): that hypothesis is what the
-    [_partial] theorems leave open, together with ppv-lite86's own generic-vs-x86_64 module
-    ([arch_irrelevant], C12/C13). *)
+    threefish-cipher and skein-hash (loop = unrolled rounds: C09), crypto-simd / ppv-null (nothing
+    selected) and all features that occur in no cfg.  For blake-hash, jh-x86_64 and c2-chacha the
+    selection only chooses the inputs (no_simd, std) of the ppv-lite86 dispatch macros; the
+    [_partial] theorems state that with the hypothesis "the six Machine instantiations of the
+    generic body compute one function", and the [C20_*_feature_irrelevant] theorems at the end of
+    this file discharge it with C03 (C03_real_blocks_are_model / C03_real_blocks_agree) for the
+    whole block functions: ChaCha narrow and wide refill, BLAKE put_block (32/64) and finalize, JH f8.
+    groestl-aesni: the three modules aes / ssse3 / sse2 are modelled as three entry points, each
+    a call of the shared body, with the std autodetect and the no-std re-export chain
+    (Model/FeaturesGroestl.v; [C20_groestl_*]); the earlier [C20_groestl_selection_irrelevant] is
+    a statement about a definition that ignores the module and has no content of its own.
+    Still open: ppv-lite86's own generic-vs-x86_64 module choice as a statement about the crate
+    ([arch_irrelevant]); it is covered through C03's six machines for the algorithms above.
+    Trusted: code generation under #[target_feature]. *)
 From Coq Require Import String List NArith Bool.
 From CC Require Import Model.Features Proofs.Features Proofs.FeaturesCompose.
 From CC Require Model.Threefish Model.Dispatch.
@@ -99,3 +105,159 @@ Print Assumptions C20_dispatch_selection_irrelevant_partial.
 Print Assumptions C20_feature_selection_irrelevant_partial.
 Print Assumptions C20_feature_selection_irrelevant_tf_partial.
 Print Assumptions C20_examples.
+
+(** audit C20-F2 (work package audit-followups): the hypothesis of
+    [C20_dispatch_selection_irrelevant_partial] DISCHARGED with C03 for the seven block functions that
+    blake-hash, jh-x86_64 and c2-chacha run through the ppv-lite86 dispatch macros. Bodies = the whole
+    block functions on the six real machines [real_xinst prof b]. Any two lattice points [p p'],
+    environments [e e'] (feature unification), macros, CPUs reporting SSE2, target-feature sets and
+    build profiles [prof prof'] return the same value, it is the executable model's (= the
+    specification's by C01 / C04 / C06), and unimplemented!() is not reached. *)
+From CC Require Import Lib.Words Lib.Bytes Model.MachineFull Proofs.MachineInstReal Proofs.MachineFullChaCha
+  Proofs.MachineFullBlake Proofs.MachineFullReal.
+From CC Require Model.PpvSoft Model.ChaChaGuts Model.Blake Model.JH Proofs.FollowupsSmall Model.FeaturesGroestl Proofs.FollowupsGroestl.
+Local Open Scope N_scope.
+
+Theorem C20_chacha_refill_wide_feature_irrelevant :
+  forall prof prof' k m m' p p' e e' cpu cpu' tf tf' s,
+    Dispatch.f_sse2 cpu = true -> Dispatch.f_sse2 cpu' = true -> cstore_ok s ->
+    dispatch_run (fun b => xm_refill_wide (real_xinst prof b) k) m cpu tf (select ChaCha p e) s
+    = dispatch_run (fun b => xm_refill_wide (real_xinst prof' b) k) m' cpu' tf' (select ChaCha p' e') s
+    /\ dispatch_run (fun b => xm_refill_wide (real_xinst prof b) k) m cpu tf (select ChaCha p e) s
+       = Some (fst (ChaChaGuts.refill_wide (cc_of s) k), store_of (snd (ChaChaGuts.refill_wide (cc_of s) k))).
+Proof. exact FollowupsSmall.F_C20.chacha_refill_wide_feature_irrelevant. Qed.
+
+(** [refill_narrow] has two dispatch sites (dispatch! for the rounds, dispatch_light128! for the rest);
+    [narrow_run prof k cpu tf sel s] = [refill_narrow_on k (prof, no_simd, std, cpu, tf) s] for
+    [sel = SelDispatch no_simd std _] *)
+Theorem C20_chacha_refill_narrow_feature_irrelevant :
+  forall prof prof' k p p' e e' cpu cpu' tf tf' s,
+    Dispatch.f_sse2 cpu = true -> Dispatch.f_sse2 cpu' = true -> cstore_ok s ->
+    FollowupsSmall.F_C20.narrow_run prof k cpu tf (select ChaCha p e) s
+    = FollowupsSmall.F_C20.narrow_run prof' k cpu' tf' (select ChaCha p' e') s
+    /\ FollowupsSmall.F_C20.narrow_run prof k cpu tf (select ChaCha p e) s
+       = Some (fst (ChaChaGuts.refill (cc_of s) k), store_of (snd (ChaChaGuts.refill (cc_of s) k))).
+Proof. exact FollowupsSmall.F_C20.chacha_refill_narrow_feature_irrelevant. Qed.
+
+Theorem C20_blake_put_block32_feature_irrelevant :
+  forall block t0 t1, Forall is_byte block -> t0 < 2 ^ 32 -> t1 < 2 ^ 32 ->
+  forall prof prof' m m' p p' e e' cpu cpu' tf tf' h,
+    Dispatch.f_sse2 cpu = true -> Dispatch.f_sse2 cpu' = true -> bytes_ok 16 (fst h) /\ bytes_ok 16 (snd h) ->
+    dispatch_run (fun b h => xm_put_block32 (real_xinst prof b) h block (t0, t1)) m cpu tf (select Blake p e) h
+    = dispatch_run (fun b h => xm_put_block32 (real_xinst prof' b) h block (t0, t1)) m' cpu' tf' (select Blake p' e') h
+    /\ dispatch_run (fun b h => xm_put_block32 (real_xinst prof b) h block (t0, t1)) m cpu tf (select Blake p e) h
+       = Some (h_bytes 4 (Blake.put_block32 (h_words 4 h) block (t0, t1))).
+Proof. exact FollowupsSmall.F_C20.blake_put_block32_feature_irrelevant. Qed.
+
+Theorem C20_blake_put_block64_feature_irrelevant :
+  forall block t0 t1, Forall is_byte block -> t0 < 2 ^ 64 -> t1 < 2 ^ 64 ->
+  forall prof prof' m m' p p' e e' cpu cpu' tf tf' h,
+    Dispatch.f_sse2 cpu = true -> Dispatch.f_sse2 cpu' = true -> bytes_ok 32 (fst h) /\ bytes_ok 32 (snd h) ->
+    dispatch_run (fun b h => xm_put_block64 (real_xinst prof b) h block (t0, t1)) m cpu tf (select Blake p e) h
+    = dispatch_run (fun b h => xm_put_block64 (real_xinst prof' b) h block (t0, t1)) m' cpu' tf' (select Blake p' e') h
+    /\ dispatch_run (fun b h => xm_put_block64 (real_xinst prof b) h block (t0, t1)) m cpu tf (select Blake p e) h
+       = Some (h_bytes 8 (Blake.put_block64 (h_words 8 h) block (t0, t1))).
+Proof. exact FollowupsSmall.F_C20.blake_put_block64_feature_irrelevant. Qed.
+
+Theorem C20_blake_finalize_feature_irrelevant :
+  forall prof prof' m m' p p' e e' cpu cpu' tf tf',
+    Dispatch.f_sse2 cpu = true -> Dispatch.f_sse2 cpu' = true ->
+    (forall h, bytes_ok 16 (fst h) /\ bytes_ok 16 (snd h) ->
+       dispatch_run (fun b => xm_finalize32 (real_xinst prof b)) m cpu tf (select Blake p e) h
+       = dispatch_run (fun b => xm_finalize32 (real_xinst prof' b)) m' cpu' tf' (select Blake p' e') h
+       /\ dispatch_run (fun b => xm_finalize32 (real_xinst prof b)) m cpu tf (select Blake p e) h
+          = Some (Blake.compressor_finalize 4 (h_words 4 h))) /\
+    (forall h, bytes_ok 32 (fst h) /\ bytes_ok 32 (snd h) ->
+       dispatch_run (fun b => xm_finalize64 (real_xinst prof b)) m cpu tf (select Blake p e) h
+       = dispatch_run (fun b => xm_finalize64 (real_xinst prof' b)) m' cpu' tf' (select Blake p' e') h
+       /\ dispatch_run (fun b => xm_finalize64 (real_xinst prof b)) m cpu tf (select Blake p e) h
+          = Some (Blake.compressor_finalize 8 (h_words 8 h))).
+Proof. exact FollowupsSmall.F_C20.blake_finalize_feature_irrelevant. Qed.
+
+Theorem C20_jh_f8_feature_irrelevant :
+  forall state, bytes_ok 128 state ->
+  forall prof prof' m m' p p' e e' cpu cpu' tf tf' data,
+    Dispatch.f_sse2 cpu = true -> Dispatch.f_sse2 cpu' = true -> bytes_ok 64 data ->
+    dispatch_run (fun b => xm_f8 (real_xinst prof b) e8_sched state) m cpu tf (select JH p e) data
+    = dispatch_run (fun b => xm_f8 (real_xinst prof' b) e8_sched state) m' cpu' tf' (select JH p' e') data
+    /\ dispatch_run (fun b => xm_f8 (real_xinst prof b) e8_sched state) m cpu tf (select JH p e) data
+       = Some (JH.m_f8 state data).
+Proof. exact FollowupsSmall.F_C20.jh_f8_feature_irrelevant. Qed.
+
+(** audit C20-F1: groestl-aesni with the THREE entry-point modules modelled separately
+    (Model/FeaturesGroestl.v: each of the 18 wrappers is its own definition, a call of the shared
+    [*_impl] body as in compressor.rs; name aliases by target features; the lazy_static
+    [dispatch_init] chain under std; [static_dispatch] without). [point_exported S field p e cs ts] =
+    what a call of the exported function [field] does at lattice point [p] in environment [e], [cs] /
+    [ts] = SSE2 detected / promised. REPLACES [C20_groestl_selection_irrelevant] (which quantified over
+    a single [groestl_fn] and held by reflexivity). TRUSTED, outside the model: what
+    [#[target_feature(enable = ..)]] changes (code generation of the three copies). *)
+Import FeaturesGroestl.
+
+Theorem C20_groestl_entry_points_are_shared_body :
+  forall S m,
+    (forall cv data, e_tf512 (entries_of S m) cv data = Groestl.tf512 S cv data) /\
+    (forall cv, e_of512 (entries_of S m) cv = Groestl.of512 S cv) /\
+    (forall cv, e_init512 (entries_of S m) cv = Groestl.init512 cv) /\
+    (forall cv data, e_tf1024 (entries_of S m) cv data = Groestl.tf1024 S cv data) /\
+    (forall cv, e_of1024 (entries_of S m) cv = Groestl.of1024 S cv) /\
+    (forall cv, e_init1024 (entries_of S m) cv = Groestl.init1024 cv).
+Proof. exact FollowupsGroestl.F_C20G.entries_are_shared_body. Qed.
+
+Theorem C20_groestl_point_selection_irrelevant :
+  forall (S : N -> N) (T : Type) (field : entries -> T) p p' e e' cs cs' ts ts' f f',
+    point_exported S field p e cs ts = Runs f -> point_exported S field p' e' cs' ts' = Runs f' ->
+    f = f' /\ f = field (FollowupsGroestl.F_C20G.shared S).
+Proof. exact FollowupsGroestl.F_C20G.groestl_point_selection_irrelevant. Qed.
+
+Theorem C20_groestl_point_runs :
+  forall (S : N -> N) (T : Type) (field : entries -> T) p e,
+    point_exported S field p e true true = Runs (field (FollowupsGroestl.F_C20G.shared S)).
+Proof. exact FollowupsGroestl.F_C20G.groestl_point_runs. Qed.
+
+(** the std autodetect arm panics iff none of aes / ssse3 / sse2 is detected - on a CPU where AES-NI
+    and SSSE3 imply SSE2: iff SSE2 is not detected; nothing is built iff no std and no target sse2 *)
+Theorem C20_groestl_std_panics_iff :
+  forall std c t,
+    exported_module std c t = InitPanics <->
+    std = true /\ c_aes c = false /\ c_ssse3 c = false /\ c_sse2 c = false.
+Proof. exact FollowupsGroestl.F_C20G.std_panics_iff. Qed.
+
+Theorem C20_groestl_std_panics_iff_no_sse2 :
+  forall c t, (c_aes c = true -> c_sse2 c = true) /\ (c_ssse3 c = true -> c_sse2 c = true) ->
+    (exported_module true c t = InitPanics <-> c_sse2 c = false).
+Proof. exact FollowupsGroestl.F_C20G.std_panics_iff_no_sse2. Qed.
+
+Theorem C20_groestl_not_built_iff :
+  forall std c t, exported_module std c t = NotBuilt <-> std = false /\ t_sse2 t = false.
+Proof. exact FollowupsGroestl.F_C20G.not_built_iff. Qed.
+
+(** the four digests through the exported functions, in every configuration that runs: the
+    specification (C07), for every message below the format limit *)
+Theorem C20_groestl_digests_eq_spec :
+  forall (std : bool) c t msg,
+    (if std then c_sse2 c else t_sse2 t) = true ->
+    (GroestlHash.fits 64 msg -> groestl224_on std c t msg = Runs (Spec.Groestl.groestl224 msg) /\
+                                groestl256_on std c t msg = Runs (Spec.Groestl.groestl256 msg)) /\
+    (GroestlHash.fits 128 msg -> groestl384_on std c t msg = Runs (Spec.Groestl.groestl384 msg) /\
+                                 groestl512_on std c t msg = Runs (Spec.Groestl.groestl512 msg)).
+Proof. exact FollowupsGroestl.F_C20G.digests_on_eq_spec. Qed.
+
+Definition C20_followup_examples :=
+  (FollowupsSmall.F_C20_Example.two_points, FollowupsGroestl.F_C20G.selections,
+   FollowupsGroestl.F_C20G.a_changed_wrapper_is_detected, FollowupsGroestl.F_C20G.point_module_vs_features).
+
+Print Assumptions C20_chacha_refill_wide_feature_irrelevant.
+Print Assumptions C20_chacha_refill_narrow_feature_irrelevant.
+Print Assumptions C20_blake_put_block32_feature_irrelevant.
+Print Assumptions C20_blake_put_block64_feature_irrelevant.
+Print Assumptions C20_blake_finalize_feature_irrelevant.
+Print Assumptions C20_jh_f8_feature_irrelevant.
+Print Assumptions C20_groestl_entry_points_are_shared_body.
+Print Assumptions C20_groestl_point_selection_irrelevant.
+Print Assumptions C20_groestl_point_runs.
+Print Assumptions C20_groestl_std_panics_iff.
+Print Assumptions C20_groestl_std_panics_iff_no_sse2.
+Print Assumptions C20_groestl_not_built_iff.
+Print Assumptions C20_groestl_digests_eq_spec.
+Print Assumptions C20_followup_examples.
